@@ -51,8 +51,9 @@ def _replay_job(args):
         rng = random.Random(seed)
         probs, n = crashfs.replay(beh['hist'], beh, variant, wd, H, R, rng, mode=mode, newproc=newproc)
     except Exception as e:  # noqa
-        import traceback
-        probs, n = [f'harness exception {type(e).__name__}: {e} {traceback.format_exc()[-400:]}'], 0
+        from lib.errors import describe, is_library
+        d = describe(e, 400)
+        probs, n = [('readback: the library raised ' if is_library(d) else 'harness exception ') + d], 0
     finally:
         shutil.rmtree(wd, ignore_errors=True)
     return probs, n
